@@ -97,6 +97,12 @@ pub trait StreamWait {
 
     #[must_use]
     fn closed(&self) -> bool;
+
+    /// Identity of the underlying stream (verification hook).
+    #[cfg(feature = "verif-hooks")]
+    fn verif_id(&self) -> usize {
+        0
+    }
 }
 impl<T: Copy> StreamWait for ReadStream<T> {
     fn wait(&self, need: usize) -> bool {
@@ -105,6 +111,10 @@ impl<T: Copy> StreamWait for ReadStream<T> {
     fn closed(&self) -> bool {
         self.refcount() == 1
     }
+    #[cfg(feature = "verif-hooks")]
+    fn verif_id(&self) -> usize {
+        Arc::as_ptr(&self.circ) as usize
+    }
 }
 impl<T: Copy> StreamWait for WriteStream<T> {
     fn wait(&self, need: usize) -> bool {
@@ -112,6 +122,10 @@ impl<T: Copy> StreamWait for WriteStream<T> {
     }
     fn closed(&self) -> bool {
         self.refcount() == 1
+    }
+    #[cfg(feature = "verif-hooks")]
+    fn verif_id(&self) -> usize {
+        Arc::as_ptr(&self.circ) as usize
     }
 }
 
@@ -166,6 +180,8 @@ impl<T: Copy> ReadStream<T> {
     /// Return true if there is nothing more ever to read from the stream.
     #[must_use]
     pub fn eof(&self) -> bool {
+        #[cfg(feature = "verif-hooks")]
+        crate::verif::point(crate::verif::pt::READ_EOF_ENTER, 0, 0);
         // Fast path.
         let refcount = Arc::strong_count(&self.circ);
         if refcount != 1 {
@@ -250,6 +266,11 @@ impl<T: Copy> WriteStream<T> {
 /// Basically anything that GNU Radio would *not* call a message port.
 #[must_use]
 pub fn new_stream<T>() -> (WriteStream<T>, ReadStream<T>) {
+    #[cfg(feature = "verif-hooks")]
+    if let Some(size) = crate::verif::stream_size_override() {
+        let circ = Arc::new(circular_buffer::Buffer::new(size).unwrap());
+        return (WriteStream { circ: circ.clone() }, ReadStream { circ });
+    }
     let circ = Arc::new(circular_buffer::Buffer::new(DEFAULT_STREAM_SIZE).unwrap());
     (WriteStream { circ: circ.clone() }, ReadStream { circ })
 }
@@ -274,6 +295,10 @@ impl<T> StreamWait for NCReadStream<T> {
     fn closed(&self) -> bool {
         Arc::strong_count(&self.q) == 1
     }
+    #[cfg(feature = "verif-hooks")]
+    fn verif_id(&self) -> usize {
+        Arc::as_ptr(&self.q) as *const u8 as usize
+    }
 }
 
 impl<T> StreamWait for NCWriteStream<T> {
@@ -284,6 +309,10 @@ impl<T> StreamWait for NCWriteStream<T> {
     }
     fn closed(&self) -> bool {
         Arc::strong_count(&self.q) == 1
+    }
+    #[cfg(feature = "verif-hooks")]
+    fn verif_id(&self) -> usize {
+        Arc::as_ptr(&self.q) as *const u8 as usize
     }
 }
 
@@ -320,6 +349,8 @@ impl<T> NCReadStream<T> {
         if !self.q.0.lock().unwrap().is_empty() {
             false
         } else {
+            #[cfg(feature = "verif-hooks")]
+            crate::verif::point(crate::verif::pt::NC_EOF_AFTER_EMPTY, 0, 0);
             Arc::strong_count(&self.q) == 1
         }
     }
